@@ -20,7 +20,7 @@ Decided statically are the structural clauses of the statement that live in the 
   COLLECTIVE    every return of hybrid_protocol passes through each cross-shard collective (sharded shuffle, reshard,
                 finalize): a shard that returns early on a shard-local condition leaves the other shards waiting.
 """
-import re
+import os, re
 from vlib import facts as F, flow
 from vlib.core import site_of
 from rules import malsec
@@ -585,7 +585,25 @@ def prf_wiring(ctx, facts):
         if len(ev) == 1:
             b, c = ev[0]
             a = [flow.expr_of(b, x, max_depth=6) for x in c[1]["args"]]
-            ok3 = a[0][0] == "upvar" and a[1][0] == "upvar" and a[2][0] == "upvar" and "key" in a[2][1] and a[3] == ("arg", 2)
+            # the key is whatever the enclosing bodies captured from gen_prf_key(..), under any name
+            from rules.C06 import upvar_sources
+            ksrc, cur_ = a[2], b
+            for _ in range(6):
+                while ksrc[0] == "call" and re.search(r"(Clone::clone|Deref::deref|Borrow::borrow)$", ksrc[1]) and ksrc[2]:
+                    ksrc = ksrc[2][0]
+                ksrc = flow.strip_casts(ksrc)
+                if ksrc[0] != "upvar":
+                    break
+                par_ = facts.bodies.get(cur_.path.rsplit("::{closure", 1)[0])
+                if par_ is None or par_ is cur_:
+                    break
+                ksrc, cur_ = upvar_sources(facts, par_, cur_.path).get(ksrc[1], ("?",)), par_
+            while ksrc[0] in ("ref", "call") and (ksrc[0] == "ref" or re.search(r"(Clone::clone|Deref::deref|Borrow::borrow)$", ksrc[1])):
+                ksrc = ksrc[1] if ksrc[0] == "ref" else ksrc[2][0]
+            okk = ksrc[0] == "call" and ksrc[1].endswith("::gen_prf_key")
+            if os.environ.get("VERIF_DEBUG_KEY"):
+                print("KEYSRC", ksrc)
+            ok3 = a[0][0] == "upvar" and a[1][0] == "upvar" and a[2][0] == "upvar" and okk and a[3] == ("arg", 2)
         ctx.ob("WIRE-prf", "eval(ctx, record, key, points)", ok3, "eval_dy_prf(eval_ctx, record_id, prf_key, pts)" if ok3 else "eval_dy_prf is not handed (its context, the chunk's record id, the PRF key, the chunk's points)", site_of(ev[0][0], ev[0][1][0]) if ev else site_of(main))
         # 4. zip with the same rows
         z = flow.find_calls(main, re.compile(r"StreamExt::zip$"))
